@@ -43,7 +43,17 @@ def gen_actor(rng, aid, ntrees, others):
     names = ['%s.T%d' % (aid, i + 1) for i in range(ntrees)]
 
     for tn in names:
-        if rng.chance(0.7) or not others:
+        if rng.chance(0.2):
+            # a tree parsed from another producer's file: bare headers (only
+            # length), options absent that the object model defaults
+            from dsim import refmodel as R
+            spec = gen.gen_foreign(rng, pool=gen.ENCS_COMMON, max_changes=2,
+                                   max_files=2, meta_le=False,
+                                   p_main_none=0.3)
+            ops.append({'op': 'parse', 'tree': tn,
+                        'hex': R.render_foreign(spec).hex(),
+                        'via': rng.choice(['shared_reader', 'from_bytes'])})
+        elif rng.chance(0.7) or not others:
             ops.extend(domgen.gen_tree_ops(rng, tn, max_changes=2,
                                            max_files=2, full=True,
                                            enc_pool=gen.ENCS_COMMON))
@@ -88,6 +98,14 @@ def gen_actor(rng, aid, ntrees, others):
             ops.append({'op': 'meta_nested', 'tree': tn, 'path': path,
                         'key': rng.choice(['new', 'n']),
                         'value': gen.gen_json_value(rng, 2)})
+        elif k < 9 and rng.chance(0.5):
+            sec, key = rng.choice([('self', 'encoding'), ('meta', 'format'),
+                                   ('self', 'version'),
+                                   ('preamble', 'indent')])
+            ops.append({'op': 'del_option', 'tree': tn,
+                        'path': rng.choice([[], [0], [0, 0]])
+                        if sec != 'self' or key == 'encoding' else [],
+                        'sec': sec, 'key': key})
         elif k < 11:
             path = rng.choice([[], [0], [0, 0]])
             sec = rng.choice(['self', 'preamble', 'meta', 'diff'])
